@@ -1,11 +1,12 @@
 (* C07 — facts about the tables regenerated from the source (G_CastRules, G_ConstRules), checked by computation. *)
-From Coq Require Import ZArith List Bool.
-From ChaiV Require Import DispatchDefs DispatchProofs DispatchTheorems ConstDefs ConstProofs.
+From Coq Require Import String ZArith List Bool.
+From ChaiV Require Import DispatchDefs DispatchProofs DispatchTheorems ConstDefs ConstSpecRun ConstProofs.
 From ChaiV.Gen Require Import G_CastRules G_ConstRules.
 Import ListNotations.
 
 (* Equation_AST_Node refuses a const left operand before anything else; references/pointers to const are boxed const and
-   not copied; by-value returns are copies; every stdlib wrapper that mutates its first parameter takes it by T& or T* *)
+   not copied; by-value returns are copies; every stdlib wrapper that mutates its first parameter takes it by T& or T*; the functions
+   registered under an assignment-like name that take the Boxed_Value itself rebind it only if it is undefined or not const *)
 Lemma gen_crules_ok : crules_ok gen_crules = true.
 Proof. vm_compute. reflexivity. Qed.
 
@@ -17,3 +18,34 @@ Definition mutable_inner_forms : list form := List.filter form_mutable inner_for
 Lemma mutable_inner_forms_eq :
   mutable_inner_forms = [FPtr; FPtrCRef; FRef; FRRef; FUniqRRef; FUniqRef; FUniqCRef; FSh; FCSh; FShCRef; FShRef; FRw; FCRw; FRwCRef].
 Proof. vm_compute. reflexivity. Qed.
+
+(* boxed_value.hpp / dispatchkit.hpp: every const_var overload adds const to the type it boxes, var keeps the type it is given, no entry
+   point removes const; add_global_const (Module and Dispatch_Engine) begins by refusing a non-const value; add_function boxes the
+   function object it keeps for lookup by name with const_var *)
+Lemma gen_entries_ok : entries_ok gen_crules = true.
+Proof. vm_compute. reflexivity. Qed.
+
+(* the regenerated entry points give exactly the constness the specification (ConstSpecRun.source_const, which the oracle uses) demands *)
+Lemma gen_entries_meet_spec :
+  forall e tc, In e (cr_entries gen_crules) -> entry_const e tc = source_const (en_name e) tc.
+Proof.
+  assert (H : forallb (fun e => forallb (fun tc => Bool.eqb (entry_const e tc) (source_const (en_name e) tc)) [true; false]) (cr_entries gen_crules) = true)
+    by (vm_compute; reflexivity).
+  intros e tc Hin. rewrite forallb_forall in H. specialize (H e Hin). cbn [forallb] in H.
+  apply andb_true_iff in H. destruct H as [H1 H2]. apply andb_true_iff in H2. destruct H2 as [H2 _].
+  destruct tc; apply eqb_prop; assumption.
+Qed.
+
+(* the overloads, listed: const_var of a value / pointer / shared_ptr / reference_wrapper, and var *)
+Lemma gen_entry_args : map (fun e => (en_name e, en_arg e)) (cr_entries gen_crules)
+  = [("const_var"%string, EaValue); ("const_var"%string, EaPtr); ("const_var"%string, EaShared); ("const_var"%string, EaRefWrap); ("var"%string, EaForward)].
+Proof. vm_compute. reflexivity. Qed.
+
+(* every name under which an assignment-like function is registered in bootstrap.hpp *)
+Definition assign_names : list string := ["="; "+="; "-="; "*="; "/="; "%="; "<<="; ">>="; "&="; "|="; "^="; "++"; "--"]%string.
+Lemma gen_assign_names : forall a, In a (cr_assign gen_crules) -> In (fst a) assign_names.
+Proof.
+  assert (H : forallb (fun a => existsb (String.eqb (fst a)) assign_names) (cr_assign gen_crules) = true) by (vm_compute; reflexivity).
+  intros a Hin. rewrite forallb_forall in H. specialize (H a Hin). apply existsb_exists in H. destruct H as (n & Hn & He).
+  apply String.eqb_eq in He. rewrite He. exact Hn.
+Qed.
